@@ -26,6 +26,17 @@ _PATCHED = False
 SIM = None  # the simulator currently running (module-level so that patched module functions can reach it)
 
 
+def qlen(q):
+    """number of samples waiting in a Sampler's buffer, whatever container it is (queue.Queue today)"""
+    return q.qsize() if hasattr(q, "qsize") else len(q)
+
+
+def qlast(q):
+    """the sample added last"""
+    return q.queue[-1] if hasattr(q, "queue") else q[-1]
+
+
+
 class TimeShim:
     """replacement for the module-level `time` in esrally.driver.driver / runner / client.context"""
 
@@ -445,13 +456,13 @@ def patch_modules():
 
     def observed_add(self, *a, **k):
         sim = SIM
-        before = self.q.qsize()
+        before = qlen(self.q)
         orig_add(self, *a, **k)
-        accepted = self.q.qsize() > before
+        accepted = qlen(self.q) > before
         sim.sid_counter += 1
         sid = sim.sid_counter
         if accepted:
-            sample = self.q.queue[-1]
+            sample = qlast(self.q)
             sample._sid = sid
             sim.sample_key[(sample.client_id, sample.task.name, sample.absolute_time)] = sid
             from esrally import metrics as _m
@@ -555,6 +566,10 @@ def make_track(scenario):
                 return [{"stream": items(x)} if isinstance(x, list) else {"operation-type": "sim", "name": x, "task": x, "parent": t["name"]} for x in l]
 
             params["requests"] = items(t["subs"])
+        elif t.get("retry") is not None:
+            # the request goes through runner.Retry; t['retry'] = the retry settings of the operation (retries, retry-on-timeout, …)
+            op_type = "sim-retry"
+            params.update(t["retry"])
         op = track.Operation(t["name"], op_type, params=params, param_source="sim-source")
         return track.Task(
             t["name"],
@@ -664,24 +679,38 @@ def make_sim_mechanic():
 
 
 class SimProcessor:
-    def __init__(self, sim):
+    """a track processor of the simulated track. Without scenario['prep_processors'] there is exactly one (index None) with
+    scenario['prep_tasks'] tasks and the fault key ("prep", k); with it, processor `index` has spec['tasks'] tasks, fault keys
+    ("prep", index, k) for its k-th task and ("prep-seed", index) for on_prepare_track itself raising"""
+
+    def __init__(self, sim, index=None, spec=None):
         self.sim = sim
+        self.index = index
+        self.spec = spec or {}
 
     def on_prepare_track(self, track, data_root_dir):
+        if self.index is not None:
+            self.sim.note("prep-seed", processor=self.index)
+            if self.sim.fault_plan.get(("prep-seed", self.index)):
+                self.sim.fault_time = self.sim.clock if self.sim.fault_time is None else self.sim.fault_time
+                raise injected(f"track processor {self.index} could not determine its tasks (injected)")
         out = []
-        for k in range(self.sim.scenario.get("prep_tasks", 2)):
+        for k in range(self.sim.scenario.get("prep_tasks", 2) if self.index is None else int(self.spec.get("tasks", 1))):
             out.append((self._task, {"k": k}))
         return out
 
     def _task(self, k):
-        if self.sim.fault_plan.get(("prep", k)):
+        if self.sim.fault_plan.get(("prep", k) if self.index is None else ("prep", self.index, k)):
             self.sim.fault_time = self.sim.clock if self.sim.fault_time is None else self.sim.fault_time
             raise injected(f"track preparation task {k} failed (injected)")
+        if self.index is not None:
+            self.sim.prep_done.append((self.index, k))
 
 
 class SimProcessorRegistry:
     def __init__(self, cfg):
-        self.processors = [SimProcessor(SIM)]
+        specs = SIM.scenario.get("prep_processors")
+        self.processors = [SimProcessor(SIM)] if specs is None else [SimProcessor(SIM, i, sp) for i, sp in enumerate(specs)]
 
     def register_track_processor(self, p):
         pass
@@ -729,6 +758,9 @@ class Sim:
         self.track = make_track(scenario)
         runner.register_runner("sim", SimRunner(self), async_runner=True)
         runner.register_runner("sim-composite", make_sim_composite(), async_runner=True)
+        # the same simulated request behind the real retry wrapper, as the retryable operation types are registered (task key `retry`)
+        runner.register_runner("sim-retry", runner.Retry(SimRunner(self)), async_runner=True)
+        self.prep_done = []         # (processor index, task index) of every track-preparation task that ran to its end (prep_processors)
         rparams.register_param_source_for_name("sim-source", make_param_source_class(self))
         self.full = bool(scenario.get("full_race"))
         self.timed = sorted(scenario.get("timed", []), key=lambda x: x[0])  # [time, action, arg]
@@ -909,6 +941,19 @@ class Sim:
         if kind == "api-error":
             meta = elastic_transport.ApiResponseMeta(status=500, http_version="1.1", headers=elastic_transport.HttpHeaders(), duration=0.0, node=None)
             return elasticsearch.ApiError("simulated", meta=meta, body={"error": "simulated"})
+        if kind.startswith("api-") and kind[4:].isdigit():
+            meta = elastic_transport.ApiResponseMeta(status=int(kind[4:]), http_version="1.1", headers=elastic_transport.HttpHeaders(), duration=0.0, node=None)
+            return elasticsearch.ApiError("simulated", meta=meta, body={"error": "simulated"})
+        if kind == "connection-timeout":
+            return elastic_transport.ConnectionTimeout("simulated connection timeout")
+        if kind == "tls-error":
+            return elastic_transport.TlsError("simulated TLS error")
+        if kind == "socket-timeout":
+            import socket
+
+            return socket.timeout("simulated socket timeout")
+        if kind == "serialization-error":
+            return elastic_transport.SerializationError("simulated serialization error")
         return RuntimeError(kind)
 
     def service_time(self, task, client, n):
